@@ -828,6 +828,34 @@ func c06R12parser(e *Engine) {
 	}
 }
 
+// comparatorForwarder: method g does nothing but hand its (operator, left, right) parameters, in that order, to a
+// comparator function, whose result it returns.
+func comparatorForwarder(g *ssa.Function, cfs map[*ssa.Function]*ssa.Parameter) *ssa.Function {
+	if g == nil || g.Blocks == nil || g.Signature.Recv() == nil || len(g.Params) != 4 {
+		return nil
+	}
+	var target *ssa.Function
+	for _, r := range returnsOf(g) {
+		c, ok := strip(retVals(r)[0]).(*ssa.Call)
+		if !ok || c.Call.StaticCallee() == nil || len(c.Call.Args) != 3 {
+			return nil
+		}
+		if _, isCmp := cfs[c.Call.StaticCallee()]; !isCmp {
+			return nil
+		}
+		for k := 0; k < 3; k++ {
+			if strip(c.Call.Args[k]) != ssa.Value(g.Params[k+1]) {
+				return nil
+			}
+		}
+		if target != nil && target != c.Call.StaticCallee() {
+			return nil
+		}
+		target = c.Call.StaticCallee()
+	}
+	return target
+}
+
 func c06R3(e *Engine) {
 	cfs := e.comparatorFunctions()
 	// the range function: calls a comparator twice with "<=" and combines with "AND"
@@ -839,7 +867,24 @@ func c06R3(e *Engine) {
 		chosen := map[*ssa.Call][]*ssa.Function{}
 		instrs(fn, func(in ssa.Instruction) {
 			c, ok := in.(*ssa.Call)
-			if !ok || c.Call.IsInvoke() || isBuiltin(c) {
+			if !ok || isBuiltin(c) {
+				return
+			}
+			if c.Call.IsInvoke() {
+				// a dynamically dispatched comparison: every implementation forwards (operator, left, right) to a comparator
+				var fs []*ssa.Function
+				all := len(c.Call.Args) == 3
+				for _, g := range e.callees(c) {
+					if t := comparatorForwarder(g, cfs); t != nil {
+						fs = append(fs, t)
+					} else {
+						all = false
+					}
+				}
+				if all && len(fs) > 0 {
+					calls = append(calls, c)
+					chosen[c] = fs
+				}
 				return
 			}
 			if g := c.Call.StaticCallee(); g != nil {
